@@ -98,17 +98,17 @@ Proof. exact status_total. Qed.
 Print Assumptions C06_status_total.
 
 (* the public Process.status(): unchanged without a read fault ... *)
-Theorem C06_status_front_plain : forall r t s2 e,
+Theorem C06_status_front_plain : forall r t s2 s3 e1 e2,
   wf_kstat r = true -> fld 3 r = Some t -> is_ascii t = true ->
-  status_public (wrapped status (SData (k_stat r)) s2 e) = Val (spec_status_tok t).
+  status_public (wrapped status (SData (k_stat r)) s2 s3 e1 e2) = Val (spec_status_tok t).
 Proof. exact status_front_plain. Qed.
 Print Assumptions C06_status_front_plain.
 
 (* ... and when the read fails (ESRCH / ENOENT) while the re-read shows state Z, the front end
    turns ZombieProcess into STATUS_ZOMBIE = the documented constant of the letter Z *)
-Theorem C06_status_front_zombie : forall r first e,
+Theorem C06_status_front_zombie : forall r first third e1 e2,
   wf_kstat r = true -> fld 3 r = Some [90] -> first = SESRCH \/ first = SENOENT ->
-  status_public (wrapped status first (SData (k_stat r)) e) = Val (bs "zombie")
+  status_public (wrapped status first (SData (k_stat r)) third e1 e2) = Val (bs "zombie")
   /\ spec_status documented_statuses 90 = Some (bs "zombie").
 Proof. exact status_front_zombie. Qed.
 Print Assumptions C06_status_front_zombie.
